@@ -118,6 +118,12 @@ func c06Inputs() []c06Input {
 	// several commodities collapsed onto one node by -m: their weights are added up
 	in = append(in, c06Input{Name: "weights-collapsed-16-digits", Files: map[string]string{"j.knut": grouped, "u.yaml": "Stocks: [AAA, BBB, CCC, DDD]\n"},
 		Args: []string{"portfolio", "weights", "-v", "CHF", "--universe", "u.yaml", "-m", "1,.", "--digits", "16", "--color=false", "j.knut"}})
+	// returns of three commodities whose values are inexact in binary and whose period
+	// returns lie on a rounding boundary of the printed tenth of a percent
+	returnsSum := "2020-01-01 open Assets:Bank\n2020-01-01 open Equity:Opening\n2020-01-01 price AAA 0.1 CHF\n2020-01-01 price BBB 0.2 CHF\n2020-01-01 price CCC 0.3 CHF\n\n" +
+		"2020-01-02 \"a\"\nEquity:Opening Assets:Bank 1 AAA\n\n2020-01-02 \"b\"\nEquity:Opening Assets:Bank 1 BBB\n\n2020-01-02 \"c\"\nEquity:Opening Assets:Bank 1 CCC\n\n" +
+		"2020-01-04 price CCC 0.3015 CHF\n2020-01-05 price CCC 0.3045 CHF\n2020-01-06 price CCC 0.3075 CHF\n2020-01-07 price AAA 0.1015 CHF\n2020-01-08 price BBB 0.2045 CHF\n"
+	in = append(in, c06Input{Name: "returns-three-commodities-rounding", Files: map[string]string{"j.knut": returnsSum}, Args: []string{"portfolio", "returns", "-v", "CHF", "--days", "j.knut"}})
 	// one file of 40 000 transactions (more than any batch size a loader might use)
 	var huge strings.Builder
 	for i := 0; i < 40000; i++ {
